@@ -104,7 +104,7 @@ def make_case(rng):
         if tailed:
             res = S.gen_stereo_molecule(rng, n_db=rng.choice([1, 1, 2]), n_chiral=0, max_extra=rng.choice([0, 1, 2]), p_ring=0.0, p_tail=1.0)
         else:
-            res = S.gen_stereo_molecule(rng, p_ring=0.5, **(dict(n_db=rng.choice([2, 3]), max_extra=14) if many else {}))
+            res = S.gen_stereo_molecule(rng, p_ring=0.5, p_unsat=0.2, **(dict(n_db=rng.choice([2, 3]), max_extra=14) if many else {}))
         if res is not None:
             break
     if res is None:
